@@ -113,6 +113,18 @@ func (x *extractor) genSkeletonsConc(b *strings.Builder) {
 		}
 		fmt.Fprintf(b, "def %s : Option (List String) := some [%s]\n", name, quoteJoin(concEvents(fd)))
 	}
+	// what is handed over on channels (value semantics vs a shared buffer): for each send in the
+	// functions whose model assumes a private copy / a single byte, the sent expression, how a sent
+	// identifier was defined, and the copy() calls into it
+	for _, f := range []fn{{"logger", "readAndWrite"}, {"proxy", "handleClientMessages"}, {"fh", "Handler.Handle"}, {"filter", "writeRTCMMessages"}} {
+		_, fd := x.fn(f.alias, f.name)
+		name := leanIdent("sent_" + f.alias + "_" + f.name)
+		if fd == nil || fd.Body == nil {
+			fmt.Fprintf(b, "def %s : Option (List String) := none\n", name)
+			continue
+		}
+		fmt.Fprintf(b, "def %s : Option (List String) := some [%s]\n", name, quoteJoin(sentValues(fd)))
+	}
 	// which functions of the circular_queue package touch Items / NextIndex at all
 	if p := x.byAlias["cq"]; p != nil {
 		var users []string
@@ -277,4 +289,51 @@ func (x *extractor) genGlobals(b *strings.Builder) {
 		fmt.Fprintf(b, "def globals_%s : List String := [%s]\n", alias, quoteJoin(names))
 		fmt.Fprintf(b, "def global_writes_%s : List String := [%s]\n", alias, quoteJoin(writes))
 	}
+}
+
+// sentValues describes every channel send of a function and every Write call: the value
+// expression, the definition of a sent identifier and the copy() calls that fill it.
+func sentValues(fd *ast.FuncDecl) []string {
+	defs := map[string]string{}
+	copies := map[string][]string{}
+	ast.Inspect(fd.Body, func(n ast.Node) bool {
+		switch s := n.(type) {
+		case *ast.AssignStmt:
+			if s.Tok == token.DEFINE && len(s.Lhs) == len(s.Rhs) {
+				for i, l := range s.Lhs {
+					if id, ok := l.(*ast.Ident); ok {
+						defs[id.Name] = exprText(s.Rhs[i])
+					}
+				}
+			}
+		case *ast.CallExpr:
+			if exprText(s.Fun) == "copy" && len(s.Args) == 2 {
+				copies[exprText(s.Args[0])] = append(copies[exprText(s.Args[0])], exprText(s.Args[1]))
+			}
+		}
+		return true
+	})
+	var out []string
+	ast.Inspect(fd.Body, func(n ast.Node) bool {
+		switch s := n.(type) {
+		case *ast.GoStmt:
+			out = append(out, "go "+exprText(s.Call))
+		case *ast.SendStmt:
+			v := exprText(s.Value)
+			line := exprText(s.Chan) + " <- " + v
+			if d, ok := defs[v]; ok {
+				line += " ; " + v + " := " + d
+			}
+			for _, c := range copies[v] {
+				line += " ; copy(" + v + ", " + c + ")"
+			}
+			out = append(out, line)
+		case *ast.CallExpr:
+			if se, ok := s.Fun.(*ast.SelectorExpr); ok && se.Sel.Name == "Write" && len(s.Args) == 1 {
+				out = append(out, exprText(s.Fun)+"("+exprText(s.Args[0])+")")
+			}
+		}
+		return true
+	})
+	return out
 }
